@@ -604,6 +604,7 @@ fn pending_entries_from_events<'a>(
     events: Vec<Ev<'a>>,
     location: Location,
     reference_location: Location,
+    dup_policy: DuplicateKeyPolicy,
 ) -> Result<Vec<PendingEntry<'a>>, Error> {
     let mut replay = ReplayEvents::with_reference(events, reference_location);
     match replay.peek()? {
@@ -613,7 +614,9 @@ fn pending_entries_from_events<'a>(
         Some(Ev::Scalar { location, .. }) => Err(Error::MergeValueNotMapOrSeqOfMaps {
             location: *location,
         }),
-        Some(Ev::MapStart { .. }) => collect_entries_from_map(&mut replay, reference_location),
+        Some(Ev::MapStart { .. }) => {
+            collect_entries_from_map(&mut replay, reference_location, dup_policy)
+        }
         Some(Ev::SeqStart { .. }) => {
             let mut batches = Vec::new();
             let _ = replay.next()?; // consume SeqStart
@@ -634,6 +637,7 @@ fn pending_entries_from_events<'a>(
                             element.take_events(),
                             element.location(),
                             element_ref_loc,
+                            dup_policy,
                         )?); // recursive
                     }
                     None => {
@@ -670,6 +674,7 @@ fn pending_entries_from_events<'a>(
 fn pending_entries_from_live_events<'a>(
     ev: &mut dyn Events<'a>,
     merge_reference_location: Location,
+    dup_policy: DuplicateKeyPolicy,
 ) -> Result<Vec<PendingEntry<'a>>, Error> {
     match ev.peek()? {
         Some(Ev::Scalar { value, style, .. }) if scalar_is_nullish(value.as_ref(), style) => {
@@ -685,6 +690,7 @@ fn pending_entries_from_live_events<'a>(
                 node.take_events(),
                 node.location(),
                 merge_reference_location,
+                dup_policy,
             )
         }
         Some(Ev::SeqStart { .. }) => {
@@ -704,6 +710,7 @@ fn pending_entries_from_live_events<'a>(
                             element.take_events(),
                             element.location(),
                             element_ref_loc,
+                            dup_policy,
                         )?);
                     }
                     None => return Err(Error::eof().with_location(ev.last_location())),
@@ -735,6 +742,7 @@ fn pending_entries_from_live_events<'a>(
 fn collect_entries_from_map<'a>(
     ev: &mut dyn Events<'a>,
     reference_location: Location,
+    dup_policy: DuplicateKeyPolicy,
 ) -> Result<Vec<PendingEntry<'a>>, Error> {
     let Some(Ev::MapStart { .. }) = ev.next()? else {
         return Err(Error::MergeValueNotMapOrSeqOfMaps {
@@ -742,8 +750,10 @@ fn collect_entries_from_map<'a>(
         });
     };
 
-    let mut fields = Vec::new();
+    let mut fields: Vec<PendingEntry<'a>> = Vec::new();
     let mut merges = Vec::new();
+    // The merged mapping's own entries obey the duplicate-key policy like those of any mapping.
+    let mut seen: FastHashSet<KeyFingerprint> = FastHashSet::default();
 
     loop {
         match ev.peek()? {
@@ -759,9 +769,28 @@ fn collect_entries_from_map<'a>(
                     // we want `referenced` to point at the alias token.
                     let _ = ev.peek()?;
                     let merge_ref_loc = ev.reference_location();
-                    merges.push(pending_entries_from_live_events(ev, merge_ref_loc)?);
+                    merges.push(pending_entries_from_live_events(
+                        ev,
+                        merge_ref_loc,
+                        dup_policy,
+                    )?);
                 } else {
                     let value = capture_node(ev)?;
+                    let fingerprint = key.fingerprint().into_owned();
+                    if !seen.insert(fingerprint.clone()) {
+                        match dup_policy {
+                            DuplicateKeyPolicy::Error => {
+                                return Err(Error::DuplicateMappingKey {
+                                    key: fingerprint.stringy_scalar_value().map(|s| s.to_owned()),
+                                    location: key.location(),
+                                });
+                            }
+                            DuplicateKeyPolicy::FirstWins => continue,
+                            DuplicateKeyPolicy::LastWins => {
+                                fields.retain(|e| *e.key.fingerprint() != fingerprint);
+                            }
+                        }
+                    }
                     fields.push(PendingEntry {
                         key,
                         value,
@@ -2391,8 +2420,11 @@ impl<'de, 'e> de::Deserializer<'de> for YamlDeserializer<'de, 'e> {
                                 // to point at the alias token.
                                 let _ = self.ev.peek()?;
                                 let merge_ref_loc = self.ev.reference_location();
-                                let entries =
-                                    pending_entries_from_live_events(self.ev, merge_ref_loc)?;
+                                let entries = pending_entries_from_live_events(
+                                    self.ev,
+                                    merge_ref_loc,
+                                    self.cfg.dup_policy,
+                                )?;
                                 if !entries.is_empty() {
                                     self.merge_stack.push(entries);
                                 }
